@@ -34,7 +34,11 @@ def impl_proto(kind, cands, chunks):
         _loop = asyncio.new_event_loop()
         asyncio.set_event_loop(_loop)
     q = asyncio.Queue()
-    readers = [make_reader(c) for c in cands]
+    mine = [make_reader(c) for c in cands]
+    # the candidates are handed over as a list or as a tuple (both are Sequences); the caller's own sequence must come
+    # back untouched (the protocol works on its own copy)
+    as_tuple = (sum(len(c) for c in chunks) + len(cands)) % 3 == 0
+    readers = tuple(mine) if as_tuple else list(mine)
     cls = mc.SmartMeterMessageProtocol if kind == "message" else mc.SmartMeterMessagePayloadProtocol
     proto = cls(q, readers)
     for ch in chunks:
@@ -46,11 +50,17 @@ def impl_proto(kind, cands, chunks):
     while not q.empty():
         it = q.get_nowait()
         if kind == "message":
-            items.append("M" + lib.hexs(it.as_bytes) + "/" + ("1" if it.is_valid else "0"))
+            try:
+                v = "1" if it.is_valid else "0"
+            except Exception as ex:  # noqa
+                v = "E-" + type(ex).__name__
+            items.append("M" + lib.hexs(it.as_bytes) + "/" + v)
         else:
             items.append("P" + lib.hexs(bytes(it)))
-    sel = proto._selected_reader
-    idx = "N" if sel is None else str(next(i for i, r in enumerate(readers) if r is sel))
+    sel = getattr(proto, "_selected_reader", None)
+    idx = "N" if sel is None else str(next((i for i, r in enumerate(mine) if r is sel), "?"))
+    if len(readers) != len(mine) or any(a is not b for a, b in zip(readers, mine)):
+        return "EXC caller's-candidate-sequence-was-modified"
     return (" ".join(items) if items else ".") + " @" + idx
 
 
@@ -81,7 +91,12 @@ def _run_cases(res, cases, family):
             continue
         if i != a:
             res.tie_break(case, i[:300], a[:300], family)
-        want, sel = expected_queue(kind, cands, chs)
+        try:
+            want, sel = expected_queue(kind, cands, chs)
+        except Exception as ex:  # noqa
+            res.prop_failure(case, f"a reader fed separately, or the is_valid of one of its messages, raised {type(ex).__name__}: "
+                                   f"what the protocol should have queued is undefined", family)
+            continue
         items, idx = i.rsplit(" @", 1)
         got = [] if items == "." else items.split(" ")
         if got != want or idx != ("N" if sel is None else str(sel)):
